@@ -155,6 +155,9 @@ func (cc *ConnCase) heldBack(i int) bool {
 // write-stall (E2: the At-th Write never completes: the peer stopped reading),
 // read-timeout (the At-th Read reports a timeout and delivers nothing; no byte is
 // lost and later reads succeed),
+// eof-with-data (At -1: the Read that delivers the peer's last bytes also reports io.EOF),
+// write-cancel (the session context derived by a Cancel middleware is cancelled
+// at the beginning of the At-th Write),
 // close-err (the server's Close of the connection reports an error; the
 // connection is closed all the same),
 // write-slow (the peer stalls for Ms simulated milliseconds inside the At-th
